@@ -250,6 +250,7 @@ func checkC07(c *Ctx, r *Result, tier string) {
 	c07Channel(c, r)
 	c07Lexer(c, r)
 	c07ErrorLoss(c, r)
+	c07NodeAfterError(c, r)
 }
 
 func dedup(s []string) []string {
@@ -624,4 +625,224 @@ func c07ErrorLoss(c *Ctx, r *Result) {
 		}
 	}
 	r.Floor("R07e-calls", total, 60)
+}
+
+// ---- R07f ------------------------------------------------------------------------------------------
+
+// c07NodeAfterError: a failed advance leaves the parser position nil (next() returns (nil, err) and
+// its callers store that into p.node). A value of p.node loaded *after* an advancing call may
+// therefore be dereferenced only on paths where that call's error is known to be nil (or the loaded
+// value was tested against nil). Dereferences inside helpers that need the position (skipToken,
+// run, ...) count at their call sites.
+func c07NodeAfterError(c *Ctx, r *Result) {
+	fNode := c.Field("parser", "parser", "node")
+	if fNode == nil {
+		r.Undecide("R07f: parser.parser.node not found")
+		return
+	}
+	isNodeLoad := func(v ssa.Value) bool {
+		ld, ok := v.(*ssa.UnOp)
+		if !ok || ld.Op != token.MUL {
+			return false
+		}
+		fa, ok := ld.X.(*ssa.FieldAddr)
+		return ok && fieldVar(fa) == fNode
+	}
+	isAdvance := func(in ssa.Instruction) (ssa.Value, bool) {
+		call, ok := in.(*ssa.Call)
+		if !ok {
+			return nil, false
+		}
+		var sig *types.Signature
+		if call.Call.IsInvoke() {
+			return nil, false
+		}
+		sig, _ = call.Call.Value.Type().Underlying().(*types.Signature)
+		if sig == nil || sig.Results().Len() == 0 || sig.Results().At(sig.Results().Len()-1).Type().String() != "error" {
+			return nil, false
+		}
+		inParser := false
+		for _, f := range c.Callees(call) {
+			if c.PkgOf(f) == "parser" {
+				inParser = true
+			}
+		}
+		if !inParser {
+			return nil, false
+		}
+		if sig.Results().Len() == 1 {
+			return call, true
+		}
+		return errValueOf(call, sig.Results().Len()-1), true
+	}
+	// helpers that dereference the position they find on entry
+	needs := map[*ssa.Function]bool{}
+	for _, fn := range c.ModFuncs() {
+		if c.PkgOf(fn) != "parser" || len(fn.Blocks) == 0 {
+			continue
+		}
+		seen := map[*ssa.BasicBlock]bool{}
+		var walk func(b *ssa.BasicBlock) bool
+		walk = func(b *ssa.BasicBlock) bool {
+			if seen[b] {
+				return false
+			}
+			seen[b] = true
+			for _, in := range b.Instrs {
+				if _, adv := isAdvance(in); adv {
+					return false
+				}
+				if bo, ok := in.(*ssa.BinOp); ok && (bo.Op == token.EQL || bo.Op == token.NEQ) {
+					if (isNodeLoad(bo.X) && isNilConst(bo.Y)) || (isNodeLoad(bo.Y) && isNilConst(bo.X)) {
+						return false // tests the position first
+					}
+				}
+				if fa, ok := in.(*ssa.FieldAddr); ok && isNodeLoad(fa.X) {
+					return true
+				}
+			}
+			for _, s := range b.Succs {
+				if walk(s) {
+					return true
+				}
+			}
+			return false
+		}
+		if walk(fn.Blocks[0]) {
+			needs[fn] = true
+		}
+	}
+	nSites := 0
+	for _, fn := range c.ModFuncs() {
+		if c.PkgOf(fn) != "parser" || len(fn.Blocks) == 0 {
+			continue
+		}
+		root := fn
+		for root.Parent() != nil {
+			root = root.Parent()
+		}
+		if root.Name() == "ASTFromJSONObject" || strings.HasPrefix(root.Name(), "init") {
+			continue
+		}
+		type adv struct {
+			in   ssa.Instruction
+			errV ssa.Value
+		}
+		var advs []adv
+		allInstrs(fn, func(in ssa.Instruction) {
+			if ev, ok := isAdvance(in); ok && ev != nil {
+				advs = append(advs, adv{in, ev})
+			}
+		})
+		if len(advs) == 0 {
+			continue
+		}
+		advIdx := map[ssa.Instruction]int{}
+		for i, a := range advs {
+			advIdx[a.in] = i
+		}
+		key := c.FuncKey(fn)
+		bad := map[ssa.Instruction]string{}
+		checked := map[ssa.Instruction]bool{}
+		o := &PathOracle{NonNilParams: true}
+		cur := func(st *PState) int {
+			for i := range advs {
+				if st.Flags[fmt.Sprint("cur:", i)] {
+					return i
+				}
+			}
+			return -1
+		}
+		check := func(st *PState, in ssa.Instruction, loaded ssa.Value, what string) {
+			i := cur(st)
+			if i < 0 {
+				return
+			}
+			if loaded != nil && !st.Flags["since:"+loaded.Name()] {
+				return // the position as it was before the advancing call
+			}
+			checked[in] = true
+			if st.Get(advs[i].errV, o) == AvNil {
+				return
+			}
+			// a position loaded since the call and known non-nil on this path
+			for v, a := range st.vals {
+				if a == AvNonNil && isNodeLoad(v) && st.Flags["since:"+v.Name()] {
+					return
+				}
+			}
+			if _, dup := bad[in]; !dup {
+				bad[in] = what + " after " + errCallLabel(advs[i].in.(*ssa.Call), calleeLabel(advs[i].in.(ssa.CallInstruction)))
+			}
+		}
+		o.Visit = func(st *PState, in ssa.Instruction) {
+			if i, ok := advIdx[in]; ok {
+				for k := range st.Flags {
+					if strings.HasPrefix(k, "cur:") || strings.HasPrefix(k, "since:") {
+						delete(st.Flags, k)
+					}
+				}
+				// a helper that needs the position is itself a dereference site
+				if call := in.(*ssa.Call); true {
+					for _, f := range c.Callees(call) {
+						_ = f
+					}
+				}
+				st.Flags[fmt.Sprint("cur:", i)] = true
+				return
+			}
+			switch x := in.(type) {
+			case *ssa.UnOp:
+				if isNodeLoad(x) {
+					st.Flags["since:"+x.Name()] = true
+				}
+			case *ssa.FieldAddr:
+				if isNodeLoad(x.X) {
+					check(st, in, x.X, "dereference of the parser position")
+				}
+			case *ssa.Call:
+				if f := x.Call.StaticCallee(); f != nil && needs[f] {
+					check(st, in, nil, "call of "+f.Name()+"(), which dereferences the parser position,")
+				}
+			}
+		}
+		// advancing calls that need the position are dereference sites too (checked before they become current)
+		o.Pre = func(st *PState, in ssa.Instruction) {
+			if _, ok := advIdx[in]; !ok {
+				return
+			}
+			call := in.(*ssa.Call)
+			for _, f := range c.Callees(call) {
+				if needs[f] {
+					check(st, in, nil, "call of "+f.Name()+"(), which dereferences the parser position,")
+					return
+				}
+			}
+		}
+		if !ExplorePaths(fn, o) {
+			r.Undecide("R07f: path exploration of %s exceeded its state bound", key)
+			continue
+		}
+		nSites += len(checked)
+		if len(bad) == 0 {
+			if len(checked) > 0 {
+				r.Instance("R07f", key, c.Pos(fn.Pos()), "ok", fmt.Sprintf("%d use(s) of the position after an advancing call: the call's error is nil (or the position was tested) on every path", len(checked)), true)
+			}
+			continue
+		}
+		var ins []ssa.Instruction
+		for in := range bad {
+			ins = append(ins, in)
+		}
+		sort.Slice(ins, func(i, j int) bool { return ins[i].Pos() < ins[j].Pos() })
+		ord := newOrdinals()
+		for _, in := range ins {
+			site := ord.key(key, "node-after-error", "")
+			pos := c.Pos(c.InstrPos(in))
+			r.Instance("R07f", site, pos, "finding", bad[in], true)
+			r.Report(Finding{Rule: "R07f", Site: site, Pos: pos,
+				Msg: key + ": " + bad[in] + " on a path where that call's error is not known to be nil — a failed advance (lexical error, end of input) leaves the position nil: Parse panics with a nil dereference instead of returning the error"})
+		}
+	}
+	r.Floor("R07f-uses", nSites, 40)
 }
